@@ -177,7 +177,7 @@ SL = "theories/Properties/SourceLevel.v"
 SLW = "theories/Properties/SourceLevelWasm.v"
 SKW = "theories/Properties/SourceKernelWasmFull.v"
 SKW_ALL = ["SRCW_new", "SRCW_zipper_merge", "SRCW_update", "SRCW_permute_and_update", "SRCW_modular_reduction", "SRCW_wrapper", "SRCW_helpers",
-           "SRCW_le_u64", "SRCW_data_to_lanes", "SRCW_load_multiple_of_four", "SRCW_remainder", "SRCW_rotate_32_by", "SRCW_packet",
+           "SRCW_le_u64", "SRCW_unordered_load3", "SRCW_data_to_lanes", "SRCW_load_multiple_of_four", "SRCW_remainder", "SRCW_rotate_32_by", "SRCW_packet",
            "SRCW_update_remainder", "SRCW_finalize", "SRCW_append"]
 # theorems about the interpreted source text as a whole (sessions of new / append / finalize / checkpoint / from_checkpoint)
 EXTRA_THEOREMS = {
